@@ -48,7 +48,7 @@ def judge(acc, root, m, cc, enc, d, tag):
     acc.shape((root if tag == "cross" else oracle.rootclass(root), r.kind, oracle.path_shape(r.details.get("cpath") or r.details.get("path")) if isinstance(r.details, dict) else None))
     if r.kind.startswith("ESCAPE") or r.kind == "GUARD":
         fp = {"clause": "undocumented-outcome", "exc": r.kind, "where": r.details.get("where"), "msg": msg_head(r.details.get("msg")), "root": oracle.rootclass(root)}
-        if r.details.get("where") in ("encrypted", "process_response"):
+        if r.details.get("where") in ("encrypted", "process_response") or fp["msg"].startswith(("Parameter encryption failed", "Started parsing Response")):
             ctx = oracle.enc_context(r.events, root, enc, cc)
             fp["requested"] = ctx["requested"]
             fp["area_can_encrypt"] = ctx["area_can_encrypt"]
